@@ -114,4 +114,25 @@ PROPS = {
              "precompiles; distinct = distinct source texts",
         assumptions=COMMON,
     ),
+    "C06": dict(
+        rule="a case is one literal: a string (every single character of a 2,000-code-point sample, random strings, 5 "
+             "embeddings), an escape sequence or truncated literal (must be an error), an integer (powers of two +-1, "
+             "10^k +-1, random, decimal / hex / leading zeros, embedded without spaces), a finite non-negative double "
+             "in up to 8 renderings x 6 embeddings, or a word (generated identifiers and near-literals must be "
+             "identifiers that can be assigned and read); the oracle is the round trip through the harness's own "
+             "renderers; non-trivial = every literal; distinct = distinct literal values",
+        assumptions=COMMON + ["Rust's float formatting/parsing (shortest round trip) is trusted to build the renderings; every "
+                              "rendering is parsed back by the harness before the implementation is asked",
+                              "integer / hex words outside the 64-bit range and floats overflowing to infinity are not claimed"],
+    ),
+    "C07": dict(
+        rule="a case is one token sequence (every sequence up to the length bound over A16 and over the 39-token "
+             "alphabet of all operators and word kinds, random programs, token soup) rendered canonically and under k "
+             "random separator plans (each gap independently: empty where no fusion is possible, any of the 25 "
+             "White_Space characters, block and line comments); both renderings must precompile to equal trees or "
+             "fail with equal errors; plus unterminated-comment and comment-marker-inside-string rules; non-trivial = "
+             "the canonical rendering re-lexes to the sequence; distinct = distinct token sequences",
+        assumptions=COMMON + ["a separator plan is used only if the reference lexer re-lexes the rendering to the same tokens "
+                              "(conservative empty-gap rule of DESIGN 3.1)"],
+    ),
 }
